@@ -134,7 +134,62 @@ def cases(rng, n):
 MV_CASES = [(s, e, t) for s in (-9, -1, 0, 2, 7) for e in (-9, -2, 0, 3, 9) for t in (-2, -1, 1, 3)]
 
 
+def strings_module(rng):
+    """A module whose string table holds planted repeats at every distance/length threshold of the table compressors:
+    constant = X + filler + X with |X| in {20, 34, 35, 36, 40, 70, 300} and |X|+|filler| sweeping 60..140 and 2**k-3..2**k+3."""
+    import random, hashlib
+    r = random.Random(rng.randrange(1 << 30))
+    alpha = "abcdefghijklmnopqrstuvwxyzABCDEFGHIJKLMNOPQRSTUVWXYZ0123456789"
+    consts = []
+    def rnd(n):
+        return "".join(r.choice(alpha) for _ in range(n))
+    for L in (34, 35, 40):
+        for dist in range(60, 141):
+            if dist >= L:
+                x = rnd(L); consts.append(x + rnd(dist - L) + x)
+    for L in (20, 36, 70, 300):
+        for dist in (126, 127, 128, 129, 130, 254, 255, 256, 257):
+            if dist >= L:
+                x = rnd(L); consts.append(x + rnd(dist - L) + x)
+    for k in range(9, 14):
+        for d in (-3, -2, -1, 0, 1, 2, 3):
+            for L in (35, 300):
+                x = rnd(L); consts.append(x + rnd((1 << k) + d - L) + x)
+    r.shuffle(consts)
+    src = ["# cython: language_level=3", "import hashlib", "CONSTS = ("]
+    for i, c in enumerate(consts):
+        src.append(("    b'%s'," if i % 2 else "    '%s',") % c)
+    src += [")", "def digests():", "    return [hashlib.md5(c if isinstance(c, bytes) else c.encode()).hexdigest() for c in CONSTS]"]
+    exp = [hashlib.md5(c.encode()).hexdigest() for c in consts]
+    return "\n".join(src) + "\n", exp
+
+
+def run_strings(ctx):
+    src, exp = strings_module(ctx.rng)
+    cells = [("default", []), ("CYTHON_COMPRESS_STRINGS=0", ["-DCYTHON_COMPRESS_STRINGS=0"]), ("CYTHON_COMPRESS_STRINGS=1", ["-DCYTHON_COMPRESS_STRINGS=1"]),
+             ("CYTHON_COMPRESS_STRINGS=2", ["-DCYTHON_COMPRESS_STRINGS=2"]), ("CYTHON_COMPRESS_STRINGS=3", ["-DCYTHON_COMPRESS_STRINGS=3"])]
+    sos = cybuild.build_many(ctx, [dict(name="c39strings", source=src, cflags=fl, opt="-O0") for _, fl in cells])
+    want = "ok " + canon(exp)
+    for (name, fl), so in zip(cells, sos):
+        ctx.count("strings/" + name)
+        if isinstance(so, cybuild.BuildError):
+            if name == "default":
+                ctx.tie_break("string-table probe build", so.stage + ": " + so.log[-400:], {"cell": name})
+            continue
+        o = cybuild.run_cases(ctx, so, [("digests", "()")], timeout_per_case=60)[0]
+        ctx.seen(("strings", name), nontrivial=True)
+        if o != want:
+            bad = "?"
+            if o.startswith("ok "):
+                got = o[3:].split(";")
+                w = want[3:].split(";")
+                bad = [i for i, (g, e) in enumerate(zip(got, w)) if g != e][:5]
+            ctx.violation("config-strings-%s" % name, "string-table probe (planted repeats at compressor thresholds) built with %s: %s; constants differing from the source: %s"
+                          % (name, o[:80], bad), {"cell": name, "outcome": o[:300], "module_source": src[:200000]})
+
+
 def run(ctx):
+    run_strings(ctx)
     ctx.rule = ("one probe module x build configurations (C/C++, -O0/-O2, C-level feature switches, string-table compression, directives); "
                 "every configuration runs the same ~500 calls (+ seeded random ones); case = (configuration, call); non-trivial = a call whose reference outcome "
                 "is not an exception")
